@@ -470,8 +470,6 @@ impl Fs {
     }
 }
 
-static NULL_TREE_AS_DOCUMENTED: std::sync::atomic::AtomicBool = std::sync::atomic::AtomicBool::new(false);
-
 /// apply the history to the expectation; returns for every op index the expected leaves *at that op* if it is a write
 fn run_expected(ops: &[Op]) -> Vec<Option<(bool, BTreeMap<Path, (u16, Vec<u8>)>, String)>> {
     run_expected2(ops).0
@@ -532,13 +530,8 @@ fn run_expected2(ops: &[Op]) -> (Vec<Option<(bool, BTreeMap<Path, (u16, Vec<u8>)
                             fs.remove_prefixes_of(&full);
                             if is_tree_mode(*mode) {
                                 if *id == null_id() {
-                                    // An explicit null-id tree placeholder. The docs of `upsert` say "paths leading through
-                                    // them will not be considered a problem"; the code fails the next edit below it with a
-                                    // find error. Judged as documented only for the corpus witness (recorded finding);
-                                    // random histories containing one are observed, not judged.
-                                    if !NULL_TREE_AS_DOCUMENTED.load(std::sync::atomic::Ordering::Relaxed) {
-                                        fs.out("explicit null-id tree placeholder");
-                                    }
+                                    // an explicit null-id tree placeholder: an empty directory, i.e. nothing; edits below
+                                    // it are fine ("paths leading through them will not be considered a problem")
                                 } else {
                                     match store.get(id) {
                                         Some(sub) if !sub.is_empty() => {
@@ -1113,17 +1106,15 @@ fn main() {
     for ops in &corpus {
         do_history(&mut rep, &mut git, ops, true, "corpus");
     }
-    // the witness of Props.C04.null_tree_placeholder_blocks_edits, judged by what the documentation promises
+    // a placeholder directory followed by an edit below it (failed with a find error before the repair)
     {
-        NULL_TREE_AS_DOCUMENTED.store(true, std::sync::atomic::Ordering::Relaxed);
         let ops = vec![
             Op::New,
             Op::Upsert { cur: false, mode: 0o040000, id: null_id(), path: p(&["a"]) },
             u(p(&["a", "b"]), 1),
             Op::Write { cur: false },
         ];
-        do_history(&mut rep, &mut git, &ops, false, "corpus");
-        NULL_TREE_AS_DOCUMENTED.store(false, std::sync::atomic::Ordering::Relaxed);
+        do_history(&mut rep, &mut git, &ops, true, "corpus");
     }
     for len in 1..=(if args.thorough { 4 } else { 3 }) {
         exhaustive(&mut rep, &mut git, len, len <= 2);
